@@ -134,6 +134,23 @@ def ref_weights(inter, cov, order):
 
 
 def check(case):
+    """every generated case is a valid program effect (finite baseline and outcomes, coverages in [0,1], explicit outcomes for
+    combinations of the listed programs): an exception raised inside atomica means no value was produced at all"""
+    import traceback
+
+    try:
+        return _check(case)
+    except Violation:
+        raise
+    except Exception as e:
+        frames = traceback.extract_tb(e.__traceback__)
+        inner = [f for f in frames if "/atomica/" in f.filename.replace("\\", "/")]
+        if inner and "/atomica/" in frames[-1].filename.replace("\\", "/"):
+            raise Violation(ID, "raises/%s/%s" % (type(e).__name__, inner[-1].name), "a valid program effect made atomica raise %s: %s (at %s:%d) for case %r" % (type(e).__name__, str(e)[:300], inner[-1].filename.split("/")[-1], inner[-1].lineno, case))
+        raise
+
+
+def _check(case):
     import atomica as at
 
     n, inter, cov, b = case["n"], case["inter"], case["cov"], case["baseline"]
